@@ -254,8 +254,9 @@ def do_check(pid, tier, seed, spec, runs, build_root, out_dir, jobs, t0):
         'wall_s': round(wall, 1),
         'violations': len(reported),
     }
-    os.makedirs(os.path.join(HERE, 'evidence'), exist_ok=True)
-    json.dump(ev, open(os.path.join(HERE, 'evidence', pid + '.json'), 'w'), indent=1)
+    evdir = os.environ.get('IVSX_EVIDENCE_DIR', os.path.join(HERE, 'evidence'))	# seedtest --scratch: not /repo's evidence
+    os.makedirs(evdir, exist_ok=True)
+    json.dump(ev, open(os.path.join(evdir, pid + '.json'), 'w'), indent=1)
     # ---- verdict
     for k, v in known_hit:
         print('KNOWN-FINDING: property=%s %s' % (pid, k['what']))
